@@ -8,7 +8,9 @@
 (* configuration), so "the last rune at the top of its block" is U+D7FF and  *)
 (* U+10FFFF themselves.                                                      *)
 EXTENDS CMap
-CONSTANT Wide         \* TRUE: one or two more values per family
+CONSTANTS Wide,        \* TRUE: one or two more values per family ...
+          WideSpaces   \* ... in these code spaces
+WideIn(n) == Wide /\ n \in WideSpaces
 
 Space(n) ==
   CASE n = "s1"   -> <<[lo |-> <<0>>, hi |-> <<B - 1>>]>>
@@ -18,15 +20,16 @@ Space(n) ==
     [] n = "mixw" -> <<[lo |-> <<0>>, hi |-> <<1>>], [lo |-> <<2, 0>>, hi |-> <<B - 1, B - 1>>]>>
     [] n = "s3"   -> <<[lo |-> <<0, 0, 0>>, hi |-> <<1, B - 1, B - 1>>]>>
 IsCID(f) == f = "cid"
-Values(f) ==
-  CASE f = "cid"    -> {0, 1, 2, 3} \cup (IF Wide THEN {6} ELSE {})
-    [] f = "tu1"    -> {<<65>>, <<66>>, <<67>>, <<68>>} \cup (IF Wide THEN {<<HoleLo - 1>>} ELSE {})
-    [] f = "tuEdge" -> {<<HoleLo - 2>>, <<HoleLo - 1>>, <<Repl>>, <<Repl + 1>>} \cup (IF Wide THEN {<<RuneMax>>} ELSE {})
-    [] f = "tuMix"  -> {<<>>, <<102>>, <<102, 105>>, <<102, 106>>} \cup (IF Wide THEN {<<102, HoleLo - 1>>, <<102, Repl>>} ELSE {})
+Values(f, n) ==
+  CASE f = "cid"    -> {0, 1, 2, 3} \cup (IF WideIn(n) THEN {6} ELSE {})
+    [] f = "tu1"    -> {<<65>>, <<66>>, <<67>>, <<68>>} \cup (IF WideIn(n) THEN {<<HoleLo - 1>>} ELSE {})
+    [] f = "tuEdge" -> {<<HoleLo - 2>>, <<HoleLo - 1>>, <<Repl>>, <<Repl + 1>>} \cup (IF WideIn(n) THEN {<<RuneMax>>} ELSE {})
+    [] f = "tuMix"  -> {<<>>, <<102>>, <<102, 105>>, <<102, 106>>} \cup (IF WideIn(n) THEN {<<102, HoleLo - 1>>, <<102, Repl>>} ELSE {})
 NotdefChoices(n) ==
-  CASE n = "s1"  -> {[lo |-> <<0>>, hi |-> <<1>>, v |-> 9]} \cup (IF Wide THEN {[lo |-> <<1>>, hi |-> <<B - 1>>, v |-> 8]} ELSE {})
-    [] n = "mix" -> {[lo |-> <<2, 1>>, hi |-> <<2, B - 1>>, v |-> 8]} \cup (IF Wide THEN {[lo |-> <<0>>, hi |-> <<0>>, v |-> 9]} ELSE {})
+  CASE n = "s1"  -> {[lo |-> <<0>>, hi |-> <<1>>, v |-> 9]} \cup (IF WideIn(n) THEN {[lo |-> <<1>>, hi |-> <<B - 1>>, v |-> 8]} ELSE {})
+    [] n = "mix" -> {[lo |-> <<2, 1>>, hi |-> <<2, B - 1>>, v |-> 8]} \cup (IF WideIn(n) THEN {[lo |-> <<0>>, hi |-> <<0>>, v |-> 9]} ELSE {})
+    [] n = "mixw" -> {}
     [] OTHER     -> {[lo |-> <<0, 0>>, hi |-> <<0, B - 1>>, v |-> 9]}
-TopQuick(n) == IF n = "s2" THEN 3 ELSE 4
+TopQuick(n) == IF n = "s1" THEN 4 ELSE 3
 TopFour(n) == 4
 =============================================================================
